@@ -42,7 +42,7 @@ CHECKS = {
          "Every sequence of builder calls for each of the 10 operations (plus URI sweep, payload sweep, direct constructors, raw constructors with every version) yields exactly the request the spec R4 derives from the arguments, in memory and after to_bytes() -> R1.decode; long argument lists (5..300 attributes over few names, three ways of handing them over) keep last-wins and order.",
          "R4 was written from the property statement and RFC 8011 4.2-4.3, not from operation.rs.", "DESIGN.md §5 C10"),
  "C11": ("fault_enumeration", "exhaustive enumeration of peer scripts (framings x write fragmentations x every status x every cut offset x stalls and slow-but-steady dribbling x N! answer orders) and client configurations against a hand-written loopback HTTP peer; real clients, real sockets",
-         "Both clients: request side (exact POST target, Host, content-type, custom headers, Basic credentials, body = request + payload) over the product of requests x payloads x configurations x paths x schemes; response side over framings x write plans incl. every two-piece split; every 4xx/5xx; cut after every offset of header+attributes under each framing; stalls and dribbling servers (never silent for long, slower overall than the timeout) with/without timeout; the URL really contacted for 4 480 target shapes x configurations; a request changed after to_bytes(); two sends through one client; connections reset (RST) with later connections served; no failure scenario may open a second connection; HTTP errors carry four body kinds (incl. an IPP error response); six spellings of the Content-Type line; response documents and request payloads of 256 MiB + 4097 (1 GiB + 4097) bytes under each framing; N concurrent senders with every answer order.",
+         "Both clients: request side (exact POST target, Host, content-type, custom headers, Basic credentials, body = request + payload) over the product of requests x payloads x configurations x paths x schemes; response side over framings x write plans incl. every two-piece split; every 4xx/5xx; cut after every offset of header+attributes under each framing; stalls and dribbling servers (never silent for long, slower overall than the timeout) with/without timeout; the URL really contacted for 5 760 target shapes x configurations; a request changed after to_bytes(); two sends through one client; connections reset (RST) with later connections served; no failure scenario may open a second connection; HTTP errors carry four body kinds (incl. an IPP error response); six spellings of the Content-Type line; response documents and request payloads of 256 MiB + 4097 (1 GiB + 4097) bytes under each framing; N concurrent senders with every answer order.",
          "Thread interleavings inside hyper/tokio/ureq are not controlled (send(&self) builds a fresh agent per call; the answer order - the only cross-request channel - is enumerated). Verdicts depend only on outcome classes stable under TCP coalescing. The system trust store is replaced by an empty one.", "DESIGN.md §5 C11"),
  "C12": ("exploration", "complete finite matrix of 1120 (2240) TLS configurations, one real handshake each against a loopback TLS peer with run-time minted certificates; two builds for the two backends",
          "{blocking, async} x {native-tls, rustls} x ignore flag {unset, false, true, true-then-false, false-then-true on one builder} x extra root {none, correct PEM, correct DER, unrelated, correct DER ending in a white-space octet, correct PEM with CRLF, correct PEM with UTF-8 explanatory text around the armour} x server certificate kind x target host form {localhost with a DNS SAN, 127.0.0.1 with an iPAddress SAN, and the two mismatches}, complete, plus every ordered pair of an 8-configuration subset in a fresh process; accepted iff the last ignore call said true or (correct root and valid certificate matching the target host); on rejection no application byte reaches the peer.",
@@ -53,7 +53,7 @@ CHECKS = {
  "C13": ("exploration", "complete product of 80 640 target URIs through the helper and every constructor; oracle = string-level RFC 3986 splitter R3",
          "The whole D-uri product is canonicalised by the helper (plus idempotence) and by the raw constructor, a sub-product by all builders; the printer-uri never contains user-info or query and keeps host, port and path.",
          "URIs that http::Uri rejects are outside the domain.", "DESIGN.md §5 C13"),
- "C14": ("exploration", "complete product of 80 640 target URIs through the cfg-guarded hook (oracle = R3) plus complete enumeration of 4 480 target shapes x client configurations observed on the wire by a loopback peer",
+ "C14": ("exploration", "complete product of 80 640 target URIs through the cfg-guarded hook (oracle = R3) plus complete enumeration of 5 760 target shapes x client configurations observed on the wire by a loopback peer",
          "ipp->http, ipps->https, default port 631 for both, everything else unchanged, http/https untouched - over the whole D-uri product; and both clients really contact that URL (request target, Host header, one connection) for every combination of scheme, host, user-info, path and query (with '@', ':' and '/' inside them) and client configuration (plain, basic_auth, custom header, Authorization header). Port-less ipps -> 443 is the recorded known finding KF-C14-1 (pinned by the repository's own test).",
          "Hook verif_transport_url is a pass-through to the private mapper; the wire half only reaches hosts that resolve to the loopback interface and explicit ports.", "DESIGN.md §5 C14"),
  "C15": ("exploration", "exhaustive enumeration of all two-phase periodic input families over the token alphabet x doubling sizes; counting allocator with budget + callgrind instruction counts",
